@@ -5,8 +5,12 @@ def run(tier):
     obs = [
         Obligation('gate', 'harness/c12.py', 'h_gate', timeout=600,
                    what='evolve command gate: Evolver.evolve() is called only if execute and required and (not can_simulate or residual diff empty under the purge-dependent ignore_apps); can_simulate with a residual diff always ends in CommandError with nothing executed; purge tasks queued iff --purge',
-                   bounds='all 2^9 flag combinations (minus diff_empty_apps without diff_empty) x verbosity 0..3, stub Evolver',
+                   bounds='all 2^9 flag combinations (minus diff_empty_apps without diff_empty; the residual Diff is a real diff.py object: empty / only a removed app / a field difference) x verbosity 0..3, stub Evolver',
                    functions=['management/commands/evolve.py Command.handle, _add_tasks, _check_simulation, _perform_evolution, _display_*']),
+        Obligation('gate_real_diff', 'harness/c12.py', 'h_gate_real_diff', timeout=600,
+                   what='the same gate fed with a real Diff(simulated, target) whose residual difference is of a symbolic kind (field attribute, extra field, missing field, Meta, left-over model, left-over app, combinations): every residual difference other than a removed app without --purge ends in CommandError with nothing executed',
+                   bounds='9 residual kinds x 2^5 flags, stub Evolver, real diff.py',
+                   functions=['management/commands/evolve.py Command._check_simulation', 'diff.py Diff.__init__, is_empty']),
         Obligation('named_rejections', 'harness/c12.py', 'h_named_rejections', timeout=300,
                    partitions=[[c] for c in range(7)],
                    what='missing app/model/field, adding an existing field, deleting a primary key, AddField/ChangeField to non-null without initial: run_simulation raises SimulationFailure',
